@@ -391,7 +391,7 @@ type best struct {
 
 func main() {
 	run := evid.Start("C19", "exploration")
-	run.SetRule("each case is one generated config.json (auths with bare-host keys, http/https URL keys with paths, colliding keys; username/password, base64 auth in 10 valid and 3 invalid classes, identity/registry tokens; credsStore; credHelpers) written to disk, loaded N times afresh via LoadWithEnv+DOCKER_CONFIG and queried for every host/key it mentions plus an unmentioned host, in sorted, reversed and shuffled orders with repeats; distinct = (deciding rule, helper behaviour or entry kind) shapes")
+	run.SetRule("each case is one generated config.json (auths with bare-host keys, scheme-less host/path keys, http/https URL keys with paths, colliding keys; username/password, base64 auth in 10 valid and 3 invalid classes, identity/registry tokens; credsStore; credHelpers) written to disk, loaded N times afresh via LoadWithEnv+DOCKER_CONFIG and queried for every host/key it mentions plus an unmentioned host, in sorted, reversed and shuffled orders with repeats; distinct = (deciding rule, helper behaviour or entry kind) shapes")
 	run.Assume("error presence is compared, never error text; entry fields are compared exactly")
 	run.Assume("helper outputs are a fixed function of (helper name, host); the injected HelperRunner follows the HelperRunner doc comment: zero entry+nil for not-found, an ErrHelperNotFound-wrapping error for a missing binary")
 	run.Assume("where the property is silent every documented reading is accepted: identitytoken together with a username may be an error or the entry; an entry with both auth and username/password may give either pair; documents with an undecodable auth field are only checked for determinism")
